@@ -470,6 +470,12 @@ func (s *fsm13) transitionAfterACK(result ACKResult, peerRetransmit bool) receiv
 
 		return receivedFlightTransition{state: StateWaiting}
 	}
+	if peerRetransmit && !s.retransmit && s.currentFlight == dtlsflight13.Flight2 {
+		// A HelloRetryRequest is never retransmitted on a timer, so a client that
+		// repeats its first ClientHello did not get it: answer again, once, in
+		// direct response. Otherwise a lost HelloRetryRequest stalls both sides.
+		return receivedFlightTransition{state: StateSending}
+	}
 	if result.Empty || len(result.Messages) != 0 || peerRetransmit {
 		return receivedFlightTransition{
 			state: handleRetransmitTimeout(s.retransmit, &s.retransmitInterval, s.cfg),
